@@ -4,4 +4,5 @@ NEXT Next
 INVARIANT Chain2
 INVARIANT Chain512
 INVARIANT Chain8
+INVARIANT ChainLegacy
 CHECK_DEADLOCK FALSE
